@@ -248,6 +248,11 @@ def _run_monitor(pid, rng, budget, tier):
     from . import api, monbase, monitors
     try:
         return monitors.MONITORS[pid](rng, budget, tier)
+    except api.ArgsWritten as e:
+        mon = monbase.Mon(pid)
+        mon.case(e.case)
+        mon.fail("a call modified the caller's argument lists", e.case, str(e))
+        return mon
     except api.ImplRaised as e:
         mon = monbase.Mon(pid)
         mon.case(e.case)
